@@ -229,3 +229,23 @@ func eqStrings(a, b []string) bool {
 	}
 	return true
 }
+
+func (l *Ledger) clone() Ledger {
+	c := *l
+	c.Unb = nil
+	for _, u := range l.Unb {
+		cu := *u
+		cu.Remaining = new(big.Int).Set(u.Remaining)
+		c.Unb = append(c.Unb, &cu)
+	}
+	c.Redel = nil
+	for _, r := range l.Redel {
+		cr := *r
+		c.Redel = append(c.Redel, &cr)
+	}
+	c.Donated = map[string]*big.Int{}
+	for k, v := range l.Donated {
+		c.Donated[k] = new(big.Int).Set(v)
+	}
+	return c
+}
